@@ -28,7 +28,7 @@ func init() {
 				"pipeline limiting is enabled and passes that semaphore on.",
 			NotCovered: "the bound (current <= stop) and liveness over all schedules: they follow from the extracted transition " +
 				"table and the lock/wake-up discipline by an invariant argument that the checker does not mechanise.",
-			Rules: map[string]string{"C18-R18": "every key of the TCP pipeline limit and the connection limit (ratelimit.tcp, ratelimit.connection_limit) of the documented sample configuration config.dist.yaml is named by a yaml tag of the configuration structure: a setting that the decoder ignores leaves its limiter switched off", "C18-R17": "closing a bind-to-device channel listener (or packet connection) closes its channel, which is what makes a blocked Accept (ReadFrom) return: the first Close closes the channel and marks the listener closed, a second one only reports net.ErrClosed", "C18-R16": "while the limiter's shared mutex (counterCond.L) is held, only the counter, the condition variable, the gauges and the logger are called: no method of the wrapped listener or connection, which may block on a lock of its own while every listener of the limiter waits", "C18-R15": "tlsConn.Close closes the wrapped (limiter) connection on every path", "C18-R14": "ServerDNS.Start and ServerTLS.Start count their TCP accept loop in the wait group that Shutdown waits for before it releases the worker pool", "C18-R12": "the worker pool of the plain-DNS and DoT servers has no capacity limit, so Submit cannot fail on the accept path and strand a connection with its limiter slot (shared with C01-R9)", "C18-R13": "dnssvc.newListeners passes the configured connection limiter to newListenConfig as it is, for every protocol", "C18-R11": "an accepted connection is handed to its worker or closed on every path; closeListeners closes both listeners unconditionally", "C18-RC": "class rules (error chains, shadowed results, character classes, crossed arguments, pool constructors, array pools, loop completeness, loop-carried buffers, replacing setters, complete clones, Grow arithmetic, pooled-buffer escape, sorted searches, fresh decode targets, per-iteration objects, whole-message copies, codec guards) over the packages this property rests on", "C18-R10": "Shutdown waits for the connections before releasing the worker pool", "C18-R1": "counter transition tables", "C18-R2": "counter state only under counterCond.L",
+			Rules: map[string]string{"C18-R19": "the TLS listener wrapper passes on every connection that the wrapped (limiter) listener gave it: after a successful inner Accept every exit of tlsListener.Accept has wrapped the connection for the caller or closed it (a dropped connection keeps its limiter slot for ever)", "C18-R18": "every key of the TCP pipeline limit and the connection limit (ratelimit.tcp, ratelimit.connection_limit) of the documented sample configuration config.dist.yaml is named by a yaml tag of the configuration structure: a setting that the decoder ignores leaves its limiter switched off", "C18-R17": "closing a bind-to-device channel listener (or packet connection) closes its channel, which is what makes a blocked Accept (ReadFrom) return: the first Close closes the channel and marks the listener closed, a second one only reports net.ErrClosed", "C18-R16": "while the limiter's shared mutex (counterCond.L) is held, only the counter, the condition variable, the gauges and the logger are called: no method of the wrapped listener or connection, which may block on a lock of its own while every listener of the limiter waits", "C18-R15": "tlsConn.Close closes the wrapped (limiter) connection on every path", "C18-R14": "ServerDNS.Start and ServerTLS.Start count their TCP accept loop in the wait group that Shutdown waits for before it releases the worker pool", "C18-R12": "the worker pool of the plain-DNS and DoT servers has no capacity limit, so Submit cannot fail on the accept path and strand a connection with its limiter slot (shared with C01-R9)", "C18-R13": "dnssvc.newListeners passes the configured connection limiter to newListenConfig as it is, for every protocol", "C18-R11": "an accepted connection is handed to its worker or closed on every path; closeListeners closes both listeners unconditionally", "C18-RC": "class rules (error chains, shadowed results, character classes, crossed arguments, pool constructors, array pools, loop completeness, loop-carried buffers, replacing setters, complete clones, Grow arithmetic, pooled-buffer escape, sorted searches, fresh decode targets, per-iteration objects, whole-message copies, codec guards) over the packages this property rests on", "C18-R10": "Shutdown waits for the connections before releasing the worker pool", "C18-R1": "counter transition tables", "C18-R2": "counter state only under counterCond.L",
 				"C18-R3": "Broadcast after every state change that can release waiters; no Signal",
 				"C18-R4": "slot taken/released exactly once on every accept/close path", "C18-R8": "Close marks the listener closed and wakes all waiting accepts on every path, also when the underlying listener's Close fails",
 				"C18-R7": "limiter wiring: New builds one shared counter with the configured thresholds; Limit hands every listener that shared counter and condition variable; the limiting ListenConfig wraps every stream listener; dnssvc wraps the listen config whenever a limiter is configured; the YAML thresholds reach New unchanged",
@@ -37,6 +37,9 @@ func init() {
 }
 
 func runC18(c *an.Ctx) {
+	// ---- R19: the TLS wrapper never drops a connection it was given
+	c.Floor("C18-R19", 1)
+	c18WrapperKeepsAccepted(c, "C18-R19")
 	// ---- R18: the documented settings are read by the configuration structure
 	if n := sharedDistConfigKeys(c, "C18-R18", "ratelimit.tcp", "ratelimit.connection_limit"); n < 6 {
 		c.Und("C18-R18", "keys of config.dist.yaml", token.NoPos, "only %d key paths examined", n)
@@ -1070,4 +1073,69 @@ func c18SharedMutexCallFree(c *an.Ctx, rule string) (examined int) {
 		}
 	}
 	return examined
+}
+
+// c18WrapperKeepsAccepted: tlsListener.Accept takes a connection from the wrapped
+// listener, which with the limiter enabled is a counted limitConn.  Every exit
+// after a successful inner Accept has either used the connection (wrapped it:
+// handed it to tls.Server or stored it in the returned object) or closed it.
+func c18WrapperKeepsAccepted(c *an.Ctx, rule string) {
+	k := "dnsserver.(*tlsListener).Accept"
+	fn := c.Prog.Fn(k)
+	key := k + " wraps or closes the connection it accepted"
+	if fn == nil {
+		c.Und(rule, key, token.NoPos, "anchor not found")
+		return
+	}
+	c.Analysed(k)
+	var accept *ssa.Call
+	for _, call := range an.Calls(fn) {
+		if cv, ok := call.(*ssa.Call); ok && call.Common().IsInvoke() && call.Common().Method.Name() == "Accept" {
+			accept = cv
+		}
+	}
+	if accept == nil {
+		c.Und(rule, key, fn.Pos(), "no inner Accept call")
+		return
+	}
+	var errEdges []an.CondEdge
+	for _, b := range fn.Blocks {
+		ifi, isIf := b.Instrs[len(b.Instrs)-1].(*ssa.If)
+		if !isIf {
+			continue
+		}
+		for _, br := range []bool{true, false} {
+			if e := (an.CondEdge{If: ifi, Branch: br}); an.ErrNonNilEdgeOf(e, accept) {
+				errEdges = append(errEdges, e)
+			}
+		}
+	}
+	if len(errEdges) == 0 {
+		c.Und(rule, key, fn.Pos(), "the error test of the inner Accept was not recognised")
+		return
+	}
+	var conn ssa.Value
+	for _, r := range *accept.Referrers() {
+		if ex, isEx := r.(*ssa.Extract); isEx && ex.Index == 0 {
+			conn = ex
+		}
+	}
+	leak := exitAvoiding(accept, errEdges, func(in ssa.Instruction) bool {
+		switch x := in.(type) {
+		case *ssa.Store:
+			return x.Val == conn
+		case ssa.CallInstruction:
+			if x.Common().IsInvoke() && x.Common().Method.Name() == "Close" && x.Common().Value == conn {
+				return true
+			}
+			for _, a := range x.Common().Args {
+				if a == conn {
+					return true
+				}
+			}
+		}
+		return false
+	})
+	c.Check(!leak, rule, key, accept.Pos(), "every exit after a successful inner Accept has wrapped or closed the connection",
+		"a path returns after a successful inner Accept without having wrapped or closed the connection: nobody will close it, and its slot in the shared limiter is taken for ever")
 }
